@@ -8,6 +8,8 @@ META = {
                    "reverse hashes, resize partitions inside read-side sections, exactness of the bit-reversal table and byte placement; atomic-step shapes of replace, del and gc_bucket (shared with C06/C07).",
     "not_decided": "linearizability; that these mechanisms suffice for `never missed` under all interleavings",
 }
+
+META["explanation"] += " " + 'Also: iterator continuation discipline (one snapshot of node->next per visited node; iter->next is that snapshot; traversal resumes from it), bucket placement compares the cursor node, partitioned populate/remove covers the whole level on every return path.'
 RULES = [
     ("C05.pub", lambda c, r: lfht.rule_pub(c, r, "C05.pub")),
     ("C05.filter", lambda c, r: lfht.rule_filter(c, r, "C05.filter")),
